@@ -28,25 +28,28 @@ func VerifC05dec() {
 		return
 	}
 	// implicit obligations: no instruction of the repo's own code panics below
-	_ = dec.Validate()
-	_, _ = dec.GetProfile()
-	_, _ = dec.GetClientID()
-	_, _ = dec.GetSecurityLifeCycle()
-	_, _ = dec.GetImplID()
-	_, _ = dec.GetBootSeed()
-	_, _ = dec.GetCertificationReference()
-	_, _ = dec.GetSoftwareComponents()
-	_, _ = dec.GetNonce()
-	_, _ = dec.GetInstID()
-	_, _ = dec.GetVSI()
-	_, _ = EncodeClaimsToCBOR(dec)
-	_, _ = EncodeClaimsToJSON(dec)
-	_, _ = ValidateAndEncodeClaimsToCBOR(dec)
-	_, _ = ValidateAndEncodeClaimsToJSON(dec)
+	// (each call runs inside c05do so that its results do not outlive it: paths merge)
+	c05do(func() { _ = dec.Validate() })
+	c05do(func() { _, _ = dec.GetProfile() })
+	c05do(func() { _, _ = dec.GetClientID() })
+	c05do(func() { _, _ = dec.GetSecurityLifeCycle() })
+	c05do(func() { _, _ = dec.GetImplID() })
+	c05do(func() { _, _ = dec.GetBootSeed() })
+	c05do(func() { _, _ = dec.GetCertificationReference() })
+	c05do(func() { _, _ = dec.GetSoftwareComponents() })
+	c05do(func() { _, _ = dec.GetNonce() })
+	c05do(func() { _, _ = dec.GetInstID() })
+	c05do(func() { _, _ = dec.GetVSI() })
+	c05do(func() { _, _ = EncodeClaimsToCBOR(dec) })
+	c05do(func() { _, _ = EncodeClaimsToJSON(dec) })
+	c05do(func() { _, _ = ValidateAndEncodeClaimsToCBOR(dec) })
+	c05do(func() { _, _ = ValidateAndEncodeClaimsToJSON(dec) })
 	e := &Evidence{Claims: dec}
-	_ = e.GetInstanceID()
-	_ = e.GetImplementationID()
-	_, _ = e.MarshalJSON()
-	_ = e.Verify(nil)
-	ndCover("c05-decoded-state-exercised", true)
+	c05do(func() { _ = e.GetInstanceID() })
+	c05do(func() { _ = e.GetImplementationID() })
+	c05do(func() { _, _ = e.MarshalJSON() })
+	c05do(func() { _ = e.Verify(nil) })
+	ndCover("c05-decoded-valid-state-exercised", verifValid(dec))
 }
+
+func c05do(f func()) { f() }
